@@ -135,6 +135,9 @@ def must_assign_self_attr(repo, fi, attr, depth=0, seen=None):
             for t in tg:
                 for x in ([t] if not isinstance(t, (ast.Tuple, ast.List)) else t.elts):
                     if isinstance(x, ast.Attribute) and isinstance(x.value, ast.Name) and x.value.id == "self" and x.attr == attr:
+                        val = getattr(st, "value", None)
+                        if isinstance(val, ast.Attribute) and val.attr == attr:
+                            continue  # self.a = self.a / Class.a: the same object under the same name, nothing is replaced
                         return True
             return calls(st.value) if getattr(st, "value", None) is not None else False
         if isinstance(st, ast.Expr):
